@@ -1,4 +1,4 @@
-import Sourmash.Lemmas.CrashLin
+import Sourmash.Lemmas.CrashReopen
 /-! Property C10 — an interrupted or reopened on-disk index never returns wrong answers.
 Property theorems only (helper lemmas: `Sourmash/Lemmas/Crash*.lean`; model: `Sourmash/Model/Crash.lean`).
 
@@ -120,5 +120,167 @@ theorem counter_after_resume (c : Coll) (sp : Spec) (s : Disk) (L : List Write) 
   refine ⟨by rw [hf], ?_, counterFor_keys_sorted _ _⟩
   intro d k
   rw [hf, hg, mem_counterFor, countFor_graph]
+
+/-! ### extension of a completed index (`open` + `update`, or `create` on the same directory) -/
+
+/-- **T-resume for extensions**: let the directory hold the completed index of `c1` and let the
+build under test extend it to `c1 ++ ext`.  After ANY number of kill / re-run rounds (each round
+through `create` or through `open` + `update`, any linearisation, any crash point):
+`open` still succeeds (the metadata of the base build stays readable — `rt` is the manifest's CSV
+round trip, hypothesis discharged by C12), `check_superset` accepts the collection, the processed
+set the handle loads is the stored one, and a run that finishes — through either entry point, in
+any order — ends in the completed index of `c1 ++ ext`, which is also what the uninterrupted
+extension produces. -/
+theorem resume_extension (rt : Manifest → Option Manifest) (hrt : ∀ m, rt m = some m)
+    (c1 ext : Coll) (sp : Spec) (st : Store) (s : Disk)
+    (hr : Reach (c1 ++ ext) sp (cleanState c1 sp st) s) :
+    (∃ h, openIdx rt s false = some h ∧ Agrees h.processed s ∧
+        updateLog h (c1 ++ ext) sp = some (seqLog (c1 ++ ext) h.processed ++ metaLog (c1 ++ ext) sp) ∧
+        ∀ L, IsLin (c1 ++ ext) h.processed L →
+          run s (L ++ metaLog (c1 ++ ext) sp) = cleanState (c1 ++ ext) sp st) ∧
+    (∀ L, IsLin (c1 ++ ext) (loadProcessed s true 0) L →
+          run s (L ++ metaLog (c1 ++ ext) sp) = cleanState (c1 ++ ext) sp st) ∧
+    (∀ L, IsLin (c1 ++ ext) (loadProcessed (cleanState c1 sp st) true 0) L →
+          run (cleanState c1 sp st) (L ++ metaLog (c1 ++ ext) sp) = cleanState (c1 ++ ext) sp st) := by
+  have hi0 := inv_clean_prefix c1 ext sp st
+  have hi := reach_inv hi0 hr
+  have hst : s.storage = st := by
+    clear hi
+    induction hr with
+    | start => rfl
+    | round k _ _ _ ih => simp [crashAt, storage_run, ih]
+  obtain ⟨hv, hm, hs⟩ := reach_meta hr c1.manifest rfl rfl rfl
+  refine ⟨?_, ?_, ?_⟩
+  · rcases hm with hm | hm
+    · refine ⟨_, openIdx_eq rt hrt s false _ sp hv hm hs, agrees_open hi _ hm, ?_, ?_⟩
+      · simp [updateLog, checkSuperset_prefix]
+      · intro L hL
+        rw [run_complete sp hi (agrees_open hi _ hm) hL, hst]
+    · refine ⟨_, openIdx_eq rt hrt s false _ sp hv hm hs, agrees_open hi _ hm, ?_, ?_⟩
+      · simp [updateLog, checkSuperset_self]
+      · intro L hL
+        rw [run_complete sp hi (agrees_open hi _ hm) hL, hst]
+  · intro L hL
+    rw [run_complete sp hi (agrees_create s 0) hL, hst]
+  · intro L hL
+    rw [run_complete sp hi0 (agrees_create _ 0) hL]
+    rfl
+
+/-- non-vacuity: an extension from one to two datasets, killed after the first write of the new
+dataset, reopened and updated again -/
+example :
+    (openIdx some (crashAt (cleanBuild [⟨0, [1, 2]⟩] .fs)
+        (seqLog exColl [0] ++ metaLog exColl .fs) 1) false).map (·.processed) = some [0] := by decide
+
+/-! ### reopening -/
+
+/-- the index left by a completed (possibly interrupted and resumed) build is `Completed`:
+what `reopen_unchanged` needs -/
+theorem completed_cleanBuild (w : World) (c : Coll) : Completed w c.manifest (cleanBuild c .fs) := by
+  rw [(clean_any_order c .fs _ (isLin_seqLog c [])).2]
+  exact { version := rfl, manifest := rfl, spec := Or.inl rfl }
+
+/-- **T-reopen**: take a completed index `d0` over collection `c` whose signatures the outside world
+`w` holds, at any path `p`, and run ANY sequence of `flush` / `close` / `open(ro)` / `open(rw)` /
+`internalize_storage` / move-the-directory on it.  Then
+* HASHES and PROCESSED on disk are what they were;
+* opening it (read-only or writable) succeeds and yields the same manifest and the same processed
+  set as before — in particular `open (close s)` does;
+* through that handle, and through a handle that is still open at the end of the sequence,
+  `sig_for_dataset i` returns dataset `i`'s signature — before or after the sketches were moved into
+  the index's own storage, wherever the directory now is;
+* `counter_for_query` and `gather` (a function of HASHES and `sig_for_dataset` only) return what they
+  returned on `d0`.
+`rt` is the manifest's trip through its CSV encoding, `hrt` the round-trip hypothesis that property
+C12 discharges. -/
+theorem reopen_unchanged (rt : Manifest → Option Manifest) (hrt : ∀ m, rt m = some m)
+    (w : World) (c : Coll) (d0 : Disk)
+    (hw : ∀ d (hd : d < c.length), w.load c[d].loc = some c[d].hashes)
+    (hc : Completed w c.manifest d0) (p : Nat) (ops : List ROp) (q : List Nat) :
+    let s' := (reopenSeq rt w { disk := d0, handle := none, path := p } ops).1
+    s'.disk.hashes = d0.hashes ∧ s'.disk.processed = d0.processed ∧
+    counterFor s'.disk.hashes q = counterFor d0.hashes q ∧
+    (∀ ro, ∃ h, openIdx rt s'.disk ro = some h ∧ h.manifest = c.manifest ∧
+        h.processed = loadProcessed d0 false c.length ∧
+        (∀ i, sigFor w s'.disk h i = c[i]?.map DS.hashes) ∧
+        gather s'.disk.hashes (sigFor w s'.disk h) q = gather d0.hashes (fun i => c[i]?.map DS.hashes) q) ∧
+    (∀ h, s'.handle = some h → h.manifest = c.manifest ∧
+        h.processed = loadProcessed d0 false c.length ∧
+        (∀ i, sigFor w s'.disk h i = c[i]?.map DS.hashes) ∧
+        gather s'.disk.hashes (sigFor w s'.disk h) q = gather d0.hashes (fun i => c[i]?.map DS.hashes) q) := by
+  intro s'
+  have hlen : c.manifest.length = c.length := by simp [Coll.manifest]
+  have hpres : Present w c.manifest := by
+    intro loc hl
+    simp only [Coll.manifest, List.mem_map] at hl
+    obtain ⟨ds, hds, e⟩ := hl
+    obtain ⟨i, hi, e2⟩ := List.getElem_of_mem hds
+    rw [← e, ← e2, hw i hi]
+    rfl
+  have hsig : ∀ i : Nat, (c.manifest[i]?).bind (fun loc => w.load loc) = c[i]?.map DS.hashes := by
+    intro i
+    by_cases hi : i < c.length
+    · simp [Coll.manifest, List.getElem?_eq_getElem hi, hw i hi]
+    · simp [Coll.manifest, List.getElem?_eq_none (Nat.le_of_not_lt hi)]
+  have hinv : SInv w c.manifest d0 s' := (SInv.init hc p).seq rt hrt hpres ops
+  refine ⟨hinv.hashes, hinv.processed, by rw [hinv.hashes], ?_, ?_⟩
+  · intro ro
+    obtain ⟨h, ho, h1, h2, _, h4⟩ := hinv.open_ rt hrt ro
+    have hs : ∀ i, sigFor w s'.disk h i = c[i]?.map DS.hashes := fun i => by
+      rw [sigFor_eq h h1 h4 i, hsig i]
+    refine ⟨h, ho, h1, by rw [h2, hlen], hs, ?_⟩
+    rw [hinv.hashes, funext hs]
+  · intro h hh
+    obtain ⟨h1, h2, h4⟩ := hinv.handle h hh
+    have hs : ∀ i, sigFor w s'.disk h i = c[i]?.map DS.hashes := fun i => by
+      rw [sigFor_eq h h1 h4 i, hsig i]
+    refine ⟨h1, by rw [h2, hlen], hs, ?_⟩
+    rw [hinv.hashes, funext hs]
+
+/-- non-vacuity of `reopen_unchanged`: internalize, close, move, reopen read-only -/
+example :
+    let w : World := [(0, [1, 2]), (1, [2])]
+    ((reopenSeq some w { disk := cleanBuild exColl .fs } [.openRw, .intern, .close, .move, .openRo]).2
+      = [.ok, .ok, .ok, .ok, .ok]) := by decide
+
+/-- a reopened / internalized / moved index is still a fixed point of the build: re-running
+`create` on it (any order) rewrites the same HASHES and PROCESSED and keeps STORAGE -/
+theorem rerun_after_reopen (rt : Manifest → Option Manifest) (hrt : ∀ m, rt m = some m)
+    (w : World) (c : Coll) (sp : Spec) (p : Nat) (ops : List ROp) (L : List Write)
+    (hw : ∀ d (hd : d < c.length), w.load c[d].loc = some c[d].hashes) :
+    let s' := (reopenSeq rt w { disk := cleanBuild c .fs, handle := none, path := p } ops).1
+    IsLin c (loadProcessed s'.disk true 0) L →
+    run s'.disk (L ++ metaLog c sp) = cleanState c sp s'.disk.storage := by
+  intro s' hL
+  have hpres : Present w c.manifest := by
+    intro loc hl
+    simp only [Coll.manifest, List.mem_map] at hl
+    obtain ⟨ds, hds, e⟩ := hl
+    obtain ⟨i, hi, e2⟩ := List.getElem_of_mem hds
+    rw [← e, ← e2, hw i hi]
+    rfl
+  have hinv : SInv w c.manifest (cleanBuild c .fs) s' :=
+    (SInv.init (completed_cleanBuild w c) p).seq rt hrt hpres ops
+  have hclean := (clean_any_order c .fs _ (isLin_seqLog c [])).2
+  have hi0 : Inv c (cleanBuild c .fs) := by
+    have := inv_clean_prefix c [] .fs []
+    rw [List.append_nil] at this
+    rw [hclean]; exact this
+  have hps : s'.disk.procSet = (cleanBuild c .fs).procSet := by
+    unfold Disk.procSet; rw [hinv.processed]
+  have hi : Inv c s'.disk :=
+    { sortedH := by rw [hinv.hashes]; exact hi0.sortedH
+      sortedP := by rw [hps]; exact hi0.sortedP
+      procNE := by rw [hinv.processed]; exact hi0.procNE
+      marker := by intro d hd; rw [hps] at hd; rw [hinv.hashes]; exact hi0.marker d hd
+      sound := by intro h d hm; rw [hinv.hashes] at hm; exact hi0.sound h d hm
+      manifestOK := by
+        intro m hm
+        rw [hinv.manifest] at hm
+        rw [hps]
+        apply hi0.manifestOK m
+        rw [hclean]
+        exact hm }
+  exact run_complete sp hi (agrees_create _ 0) hL
 
 end Sourmash.C10
